@@ -290,6 +290,9 @@ SAFE_METHODS = {
     frozenset: set(),
     range: {"index", "count"},
 }
+# every public method of the immutable text types is a pure function of concrete operands
+SAFE_METHODS[str] |= {m for m in dir(str) if not m.startswith("_")}
+SAFE_METHODS[bytes] |= {m for m in dir(bytes) if not m.startswith("_")}
 SYM_METHODS = {"isdigit", "lower", "upper", "encode", "ljust", "rjust", "startswith", "endswith", "strip", "replace", "split", "join", "count", "rfind", "find"}
 BINOPS = {
     ast.Add: sym.add, ast.Sub: sym.sub, ast.Mult: sym.mul, ast.FloorDiv: sym.floordiv, ast.Mod: sym.mod,
@@ -1559,6 +1562,8 @@ class Interp:
                 if args[0] in d.items:
                     return d.items[args[0]]
                 return sym.op("item", d.base, args[0])
+            if name == "copy" and not args:
+                return SymDict(d.base, d.items)
             raise Unsupported("symdict method " + name)
         if isinstance(f, BuiltinType):
             return self.call_builtin_type(f, args, kwargs)
@@ -1685,6 +1690,10 @@ class Interp:
             raise Unsupported("3-arg type()")
         if f.name == "object":
             return Rec(ClassVal("object"))
+        if f.name == "dict" and len(args) == 1 and (isinstance(args[0], SymDict) or (is_sym(args[0]) and sym.kind(args[0]) in ("any", "dict"))):
+            # dict(state): a copy of a symbolic mapping
+            x = args[0]
+            return SymDict(x.base, {**x.items, **kwargs}) if isinstance(x, SymDict) else SymDict(x, dict(kwargs))
         if f.name == "bytearray":
             if not args:
                 return SymBytes(b"")
@@ -1795,6 +1804,19 @@ class Interp:
             return self.ext_models[d](self, args, kwargs)
         if d == "builtins.isinstance":
             return self.isinstance(args[0], args[1])
+        if d.startswith("unicodedata.") and not kwargs and all(isinstance(a, (str, int)) and not is_sym(a) for a in args):
+            import unicodedata
+            fnc = getattr(unicodedata, d.split(".", 1)[1], None)
+            if callable(fnc):
+                try:
+                    return fnc(*args)
+                except (ValueError, TypeError) as ex:
+                    raise Raised(ExcVal(type(ex).__name__)) from None
+        if d in ("functools.lru_cache", "functools.cache", "functools.wraps"):
+            # within ONE abstract run a memoised function behaves like the function (what a cache does across assemblies is rule G5.memo)
+            if len(args) == 1 and not kwargs and isinstance(args[0], (Closure, Bound)) and d != "functools.wraps":
+                return args[0]
+            return PyFn(lambda I_, a, k: a[0])
         if d == "builtins.issubclass":
             a, b = args
             bs = b if isinstance(b, tuple) else (b,)
